@@ -5,13 +5,19 @@ def main():
     modname, q = sys.argv[1], sys.argv[2]
     reg = importlib.import_module('contracts.'+modname).C
     t0=time.time()
-    ctx = core.Ctx(q.split('#')[0], reg[q], reg, budget=10)
+    ctx = core.Ctx(q.split('#')[0], reg[q], reg, budget=float(__import__("os").environ.get("B","10")))
     try:
         ctx.run()
     except core.Unsupported as e:
         print("UNSUPPORTED:", e)
     for o in ctx.obligs:
         print("%-10s %5.2fs L%-4d %s" % (o.status, o.time, o.lineno, o.name[:150]), ('  '+o.reason) if o.status!='discharged' else '')
+    import os
+    os.makedirs('/verif/out/debug', exist_ok=True)
+    k=0
+    for o in ctx.obligs:
+        if o.status!='discharged':
+            open('/verif/out/debug/u%d.smt2'%k,'w').write(core.to_smt2(o.hyps,o.goal)); k+=1
     print(len(ctx.obligs), 'obligations', sum(o.status=='discharged' for o in ctx.obligs), 'discharged; solver %.2fs wall %.2fs'%(ctx.solver_time, time.time()-t0))
     print('pruned', ctx.pruned); print('trusted', ctx.trusted, 'inlined', ctx.inlined)
 main()
